@@ -19,7 +19,7 @@ def plans(tier):
     for L in ((0, 1, 2) if tier == "thorough" else (1, 2)):
         mcs.append(("MC_Bounds", "MC_Bounds_check.cfg", {"L": L}, f"c09-L{L}"))
     lens = "{1, 2, 3}" if tier == "thorough" else "{1, 2}"
-    for L in ((0, 1, 2) if tier == "thorough" else (1,)):
+    for L in ((0, 1, 2) if tier == "thorough" else (1, 2)):
         gens.append(("MC_Bounds", "MC_Bounds_check.cfg", {"L": L, "Lens": lens}, f"c09-L{L}",
                      {"chunk": 1024, "every": 1 if tier == "thorough" else 2}))
     # byte-exact: configured limit = (L+1) units - 1 byte behaves like the model with limit L
